@@ -26,11 +26,16 @@ Comparison discipline
   leaves the dtype of an empty / all-missing reduction to the accident of its code path, e.g. Float64 for an Int64
   sum whose min_count is not met).
 
-Labels: `<op family>:<causal features>:<symptom>`.  The features are found by ablation: the failing description
-is re-run with one feature removed at a time (single column, nullable column cast to float64, series<->frame,
-skipna, numeric_only, min_count, ddof, split_every, single partition, empty partitions dropped); a feature is in
-the label only if removing it makes the same symptom disappear.  So one mechanism gets one label regardless of
-which other columns/options/partition counts happened to be in the random case.
+Labels: `<op family>:<causal features>:<symptom>`.  Two steps.  (1) Ablation finds the causal features: the failing
+description is re-run with one feature removed at a time (single column, nullable column cast to float64,
+series<->frame, skipna, numeric_only, min_count, ddof, split_every, single partition, empty partitions dropped,
+all-NA partitions merged); a feature is causal only if removing it makes the same symptom disappear.
+(2) `_canonical` keeps the features that DEFINE a mechanism and drops its trigger variants (which partition was
+empty / all-NA / merely second, series or frame path, tree level, empty frame, exception location): one label per
+mechanism, and for mechanisms tied to a column dtype class (nullable / datetime / str / categorical) one label
+per op family and symptom class (`raises`, `dtype`, `lost-NA`, ...; every axis=1 reduction is the family
+`rowwise`).  A failure whose causal features fit none of these rules keeps its full ablation label, so a different
+defect (e.g. every mutant below: plain columns, `multi-partition` / `split_every-tree`) is still reported as new.
 
 Calibration (false alarms corrected)
 * DataFrame.value_counts does not exist in dask and the statement's value_counts is the Series one: Series only.
@@ -101,126 +106,63 @@ CLAIM = ("Every generated reduction/aggregation was computed by the real dask.da
 LEVEL_NOTE = "pandas is the reference; domain limited to the operations and options the statement names"
 TECHNIQUE = "runtime monitoring: pandas differential oracle over a complete small partitioning space + random frames"
 CASE_TIMEOUT = 120
-# genuine defects reproduced on the unchanged tree and replayed by hand: see findings_proposed/C37.md (R1..R9)
+# known findings (known_findings.d/C37.json; root causes R1..R10 in findings_proposed/C37.md).  Fixed and removed:
+# idxmin/idxmax:unsorted-columns:index (fixes_ready/C37_01), std:datetime-column:raises (fixes_ready/C37_02).
 PENDING = {
-    'any/all:axis=1&nullable-column&skipna=False:ValueError@dataframe/utils.py:raise_on_meta_error':
-        'R6: any/all(skipna=False) with a nullable column raises / answers False where pandas answers <NA>',
-    'any/all:frame&nullable-column&skipna=False&multi-partition:ValueError@dataframe/dask_expr/_reductions.py:chunk':
-        'R6: any/all(skipna=False) with a nullable column raises / answers False where pandas answers <NA>',
-    'any/all:frame&nullable-column&skipna=False:ValueError@utils.py:__call__':
-        'R6: any/all(skipna=False) with a nullable column raises / answers False where pandas answers <NA>',
-    'any/all:multi-column&nullable-column&skipna=False&all-NA-partition:TypeError@dataframe/dask_expr/_reductions.py:chunk':
-        'R6: any/all(skipna=False) with a nullable column raises / answers False where pandas answers <NA>',
-    'any/all:multi-column&nullable-column&skipna=False&multi-partition:TypeError@dataframe/dask_expr/_reductions.py:chunk':
-        'R6: any/all(skipna=False) with a nullable column raises / answers False where pandas answers <NA>',
-    'any/all:multi-column&nullable-column&skipna=False:TypeError@utils.py:__call__':
-        'R6: any/all(skipna=False) with a nullable column raises / answers False where pandas answers <NA>',
-    'any/all:series&nullable-column&skipna=False:lost-NA':
-        'R6: any/all(skipna=False) with a nullable column raises / answers False where pandas answers <NA>',
-    'cov/corr:frame&datetime-column:TypeError@dataframe/dask_expr/_collection.py:_prepare_cov_corr':
-        'R7: corr(numeric_only=True) validates its meta with DataFrame.cov, which refuses frames holding a datetime column',
-    'describe:datetime-column:rows':
-        "R7: describe of a datetime column has no 'mean' row",
-    'describe:nullable-column:TypeError@array/percentile.py:_percentile':
-        'R6: describe of a nullable column raises in dask.array.percentile / float64 instead of Float64',
-    'describe:nullable-column:dtype':
-        'R6: describe of a nullable column raises in dask.array.percentile / float64 instead of Float64',
-    'idxmin/idxmax:all-NA-partition:ValueError@dataframe/dask_expr/_reductions.py:chunk':
-        "R3: one all-NA partition makes idxmin/idxmax raise 'Encountered all NA values'",
-    'idxmin/idxmax:axis=1&nullable-column&skipna=False:ValueError@dataframe/utils.py:raise_on_meta_error':
-        'R3: meta is computed on meta_nonempty data that contains NA -> skipna=False / axis=1 raise before any data is read',
-    'idxmin/idxmax:axis=1&nullable-column:ValueError@dataframe/utils.py:raise_on_meta_error':
-        'R3: meta is computed on meta_nonempty data that contains NA -> skipna=False / axis=1 raise before any data is read',
-    'idxmin/idxmax:frame&datetime-column&numeric_only=True:ValueError@dataframe/core.py:idxmaxmin_agg':
-        'R9: numeric_only=True leaving no column raises instead of the empty Series',
-    'idxmin/idxmax:frame&nullable-column&multi-partition:values':
-        "R3: wrong label for a nullable boolean column next to a float column (object 'value' column in idxmaxmin_row)",
-    'idxmin/idxmax:frame&str-column&numeric_only=True:ValueError@dataframe/core.py:idxmaxmin_agg':
-        'R9: numeric_only=True leaving no column raises instead of the empty Series',
-    'idxmin/idxmax:nullable-column&skipna=False:ValueError@dataframe/core.py:idxmaxmin_chunk':
-        'R3: meta is computed on meta_nonempty data that contains NA -> skipna=False / axis=1 raise before any data is read',
-    'idxmin/idxmax:str-column&skipna=False:ValueError@dataframe/core.py:idxmaxmin_chunk':
-        'R3: meta is computed on meta_nonempty data that contains NA -> skipna=False / axis=1 raise before any data is read',
-    'idxmin/idxmax:unsorted-columns:index':
-        'R3: result index is sorted alphabetically (groupby(level=0) in idxmaxmin_combine), pandas keeps column order; fix proposed',
-    'mean:axis=1&nullable-column&skipna=False:ValueError@dataframe/utils.py:raise_on_meta_error':
-        'R6: row-wise mean(skipna=False) with a nullable column: meta inference fails',
-    'mean:datetime-column:TypeError@dataframe/dask_expr/_reductions.py:chunk':
-        'R7: mean of a datetime column raises (lowered to sum/count)',
-    'min/max:axis=1&nullable-column&skipna=False:ValueError@dataframe/utils.py:raise_on_meta_error':
-        "R6: skipna=False with a nullable column raises 'boolean value of NA is ambiguous' / meta inference fails",
-    'min/max:empty-partition:dtype':
-        'R5: an empty (or all-NA) partition turns the result dtype into float64/object',
-    'min/max:frame&empty-partition:dtype':
-        'R5: an empty (or all-NA) partition turns the result dtype into float64/object',
-    'min/max:frame&skipna=False&empty-partition:spurious-NA':
-        'R1: skipna=False and an empty partition -> NaN (chunk result of the empty partition poisons the combine)',
-    'min/max:multi-column&datetime-column&empty-partition:TypeError@dataframe/dask_expr/_reductions.py:combine|aggregate':
-        "R5: an empty partition's NaN chunk result makes min/max of a str/datetime column raise TypeError",
-    'min/max:multi-column&datetime-column&skipna=False&empty-partition:values':
-        'R2: skipna=False over object-dtype chunk rows (mixed column kinds) loses NaN / returns a wrong extreme',
-    'min/max:multi-column&nullable-column&skipna=False&empty-partition:TypeError@dataframe/dask_expr/_reductions.py:combine|aggregate':
-        "R6: skipna=False with a nullable column raises 'boolean value of NA is ambiguous' / meta inference fails",
-    'min/max:multi-column&nullable-column&skipna=False&multi-partition:TypeError@dataframe/dask_expr/_reductions.py:combine|aggregate':
-        "R6: skipna=False with a nullable column raises 'boolean value of NA is ambiguous' / meta inference fails",
-    'min/max:multi-column&skipna=False&empty-partition:values':
-        'R2: skipna=False over object-dtype chunk rows (mixed column kinds) loses NaN / returns a wrong extreme',
-    'min/max:multi-column&skipna=False&multi-partition:lost-NA':
-        'R2: skipna=False over object-dtype chunk rows (mixed column kinds) loses NaN / returns a wrong extreme',
-    'min/max:multi-column&str-column&empty-partition:TypeError@dataframe/dask_expr/_reductions.py:combine|aggregate':
-        "R5: an empty partition's NaN chunk result makes min/max of a str/datetime column raise TypeError",
-    'min/max:multi-column&str-column&skipna=False&multi-partition:lost-NA':
-        'R2: skipna=False over object-dtype chunk rows (mixed column kinds) loses NaN / returns a wrong extreme',
-    'min/max:series&nullable-column&empty-frame&skipna=False:TypeError@dataframe/dask_expr/_reductions.py:combine|aggregate':
-        "R6: skipna=False with a nullable column raises 'boolean value of NA is ambiguous' / meta inference fails",
-    'min/max:series&nullable-column&skipna=False&empty-partition:TypeError@dataframe/dask_expr/_reductions.py:combine|aggregate':
-        "R6: skipna=False with a nullable column raises 'boolean value of NA is ambiguous' / meta inference fails",
-    'min/max:series&nullable-column&skipna=False&multi-partition:TypeError@dataframe/dask_expr/_reductions.py:combine|aggregate':
-        "R6: skipna=False with a nullable column raises 'boolean value of NA is ambiguous' / meta inference fails",
-    'min/max:series&nullable-column&split_every-tree&all-NA-partition:dtype':
-        'R5: an empty (or all-NA) partition turns the result dtype into float64/object',
     'min/max:skipna=False&empty-partition:spurious-NA':
-        'R1: skipna=False and an empty partition -> NaN (chunk result of the empty partition poisons the combine)',
-    'mode:categorical-column&empty-frame:length':
-        'R9: mode of an EMPTY categorical column returns all categories (count 0 == max 0)',
-    'mode:frame&categorical-column&numeric_only=True:ValueError@dataframe/dask_expr/_collection.py:concat':
-        "R9: mode(numeric_only=True) on a frame without numeric columns raises 'No objects to concatenate'",
-    'mode:frame&datetime-column&numeric_only=True:ValueError@dataframe/dask_expr/_collection.py:concat':
-        "R9: mode(numeric_only=True) on a frame without numeric columns raises 'No objects to concatenate'",
-    'mode:frame&str-column&numeric_only=True:ValueError@dataframe/dask_expr/_collection.py:concat':
-        "R9: mode(numeric_only=True) on a frame without numeric columns raises 'No objects to concatenate'",
-    'nlargest/nsmallest:multi-column&nullable-column&multi-partition:index':
-        'R6: DataFrame.nlargest ordered by a nullable column differs from pandas across partitions',
-    'sem:axis=1&nullable-column:ValueError@dataframe/utils.py:raise_on_meta_error':
-        'R6: row-wise sem/std with a nullable column: meta inference fails',
-    'std:series&datetime-column&ddof!=1:TypeError@dataframe/utils.py:_nonempty_scalar':
-        "R7: std(ddof!=1) of a datetime column: meta is NaT -> 'Can't handle meta of type NaTType'",
+        'min/max(skipna=False) return NaN as soon as one partition is empty (Series and DataFrame)',
+    'var:skipna=False&empty-partition:spurious-NA':
+        'var/std/sem(skipna=False) return NaN when a partition is empty and a tree level combines it (split_every < npartitions)',
+    'min/max:skipna=False&object-chunk-rows:wrong-value':
+        'DataFrame.min/max(skipna=False) lose a NaN or return a wrong extreme when the per-partition result rows are object dtype (bool/str/datetime next to numeric columns, or a bool column next to the NaN of an empty partition)',
+    'min/max:empty-or-all-NA-partition:dtype':
+        'min/max of int64/bool/nullable-int columns come back float64 (or object) when a partition is empty or all-NA',
+    'min/max:non-numeric-column&empty-partition:raises':
+        "DataFrame.min/max raise TypeError ('>=' not supported between 'float' and 'str' / 'Timestamp') for a frame holding a str or datetime column when a partition is empty",
+    'idxmin/idxmax:all-NA-partition:ValueError@dataframe/dask_expr/_reductions.py:chunk':
+        "idxmin/idxmax raise 'Encountered all NA values' when ONE partition is all-NA in a column (e.g. a single-row partition holding NaN)",
+    'idxmin/idxmax:nullable-column:raises':
+        "idxmin/idxmax(skipna=False) (and axis=1) of a nullable Int64/boolean column raise 'Encountered an NA value with skipna=False' although the data has no NA",
+    'idxmin/idxmax:str-column:raises':
+        "idxmin/idxmax(skipna=False) of a str column raise 'Encountered an NA value with skipna=False'",
+    'idxmin/idxmax:nullable-column:values':
+        'DataFrame.idxmax over a float column and a nullable boolean column returns a later label than pandas for the boolean column (first occurrence expected)',
+    'idxmin/idxmax:numeric_only=True&no-numeric-column:raises':
+        "DataFrame.idxmin/idxmax(numeric_only=True) raise 'attempt to get argmax of an empty sequence' when no column is numeric (pandas: empty Series)",
+    'mode:numeric_only=True&no-numeric-column:raises':
+        "DataFrame.mode(numeric_only=True) raises 'No objects to concatenate' when no column is numeric (pandas: empty DataFrame)",
+    'mode:categorical-column:length':
+        'mode of an EMPTY categorical column returns every category (pandas: empty)',
     'value_counts:sort-omitted:order':
-        'R4: Series.value_counts() default is not sorted by count (pandas default sort=True)',
+        'Series.value_counts() is not sorted by count (pandas default sort=True), even with one partition',
+    'min/max:nullable-column:raises':
+        "min/max(skipna=False) of a nullable Int64/boolean Series, or of a frame holding one, raise 'boolean value of NA is ambiguous' when a partition result is NA",
+    'any/all:nullable-column:raises':
+        "any/all(skipna=False) of a frame holding a nullable column raise TypeError 'boolean value of NA is ambiguous' / ValueError 'cannot convert float NaN to bool'",
+    'any/all:nullable-column:lost-NA':
+        'Series.any(skipna=False) of a nullable column answers False where pandas answers <NA> (Kleene logic)',
+    'var:nullable-column:raises':
+        'DataFrame.var/std/sem raise TypeError "float() argument must be ... not \'NAType\'" for a frame holding a nullable column with NA',
+    'var:nullable-column:dtype':
+        'DataFrame.var/std/sem of a frame holding a nullable column return float64 where pandas returns Float64',
+    'describe:nullable-column:raises':
+        'describe() of a nullable Int64 column raises TypeError "Cannot interpret \'Int64Dtype()\' as a data type"',
+    'describe:nullable-column:dtype':
+        'describe() of a frame holding a nullable column (when it does not raise) has float64 where pandas has Float64',
+    'rowwise:nullable-column:raises':
+        "axis=1 reductions (min/max/mean/any/all/idxmin/idxmax with skipna=False; sem/std/idxmax always) over a frame holding a nullable column raise 'Metadata inference failed'",
+    'nlargest/nsmallest:nullable-column:index':
+        'DataFrame.nlargest(n, [nullable key, float key]) over several partitions returns other rows than pandas (key with NA, duplicate index labels)',
+    'mean:datetime-column:raises':
+        'mean of a datetime column (Series, or DataFrame holding one) raises "\'DatetimeArray\' ... does not support operation \'sum\'" (pandas: Timestamp)',
+    'describe:datetime-column:rows':
+        "describe() of a datetime column has no 'mean' row (pandas has one)",
+    'cov/corr:datetime-column:raises':
+        'DataFrame.corr(numeric_only=True) raises TypeError for a frame holding a datetime column (pandas drops it and answers)',
     'var:ddof>=count:lost-NA':
-        'R8: ddof >= number of valid rows gives inf/negative instead of NaN',
-    'var:frame&nullable-column:TypeError@dataframe/dask_expr/_reductions.py:reduction_chunk':
-        "R6: var/std/sem of a frame holding a nullable column: TypeError on pd.NA (values.astype('f8')) or float64 instead of Float64",
-    'var:frame&nullable-column:dtype':
-        "R6: var/std/sem of a frame holding a nullable column: TypeError on pd.NA (values.astype('f8')) or float64 instead of Float64",
-    'var:multi-column&nullable-column:TypeError@dataframe/dask_expr/_reductions.py:reduction_chunk':
-        "R6: var/std/sem of a frame holding a nullable column: TypeError on pd.NA (values.astype('f8')) or float64 instead of Float64",
-    'var:skipna=False&split_every-tree&empty-partition:spurious-NA':
-        'R1: var/std/sem skipna=False, tree reduction and an empty partition -> NaN (0/0 in moment_combine)',
-    'any/all:frame&nullable-column&skipna=False&all-NA-partition:ValueError@dataframe/dask_expr/_reductions.py:chunk':
-        'R6: any/all(skipna=False) with a nullable column raises / answers False where pandas answers <NA>',
-    'min/max:frame&skipna=False&split_every-tree&empty-partition:spurious-NA':
-        'R1: skipna=False and an empty partition -> NaN (chunk result of the empty partition poisons the combine)',
-    'min/max:multi-column&datetime-column&skipna=False&multi-partition:lost-NA':
-        'R2: skipna=False over object-dtype chunk rows (mixed column kinds) loses NaN / returns a wrong extreme',
-    'min/max:multi-column&nullable-column&empty-frame&skipna=False:TypeError@dataframe/dask_expr/_reductions.py:combine|aggregate':
-        "R6: skipna=False with a nullable column raises 'boolean value of NA is ambiguous' / meta inference fails",
-    'min/max:skipna=False&empty-partition:values':
-        'R2: skipna=False over object-dtype chunk rows (mixed column kinds) loses NaN / returns a wrong extreme',
+        'var/std/sem with ddof equal to the number of valid rows give inf (pandas NaN)',
     'nunique:signed-zero&multi-partition:values':
-        'R10: -0.0 and +0.0 are hashed to different output partitions by drop_duplicates: nunique counts them twice',
-    'std:series&datetime-column&ddof>=count:TypeError@dataframe/utils.py:_nonempty_scalar':
-        "R7: std(ddof!=1) of a datetime column: meta is NaT -> 'Can't handle meta of type NaTType'",
+        'nunique counts -0.0 and +0.0 as two values when the data is spread over several partitions',
 }
 
 SKIPNA_OPS = ("sum", "prod", "min", "max", "mean", "var", "std", "sem", "any", "all", "idxmin", "idxmax")
@@ -797,7 +739,51 @@ def _single(case, col):
 
 
 def _label(case, out):
-    return _attribute(case, out)
+    """ablation (causal features) -> canonical mechanism label.
+
+    The ablation tells WHICH features are causal; the canonical label keeps only the features that define a
+    mechanism and drops the trigger variants of that mechanism (which partition happened to be empty / all-NA /
+    merely second, series or frame path, tree level, empty frame, exception location), so that one defect has one
+    label (or a small closed family by symptom class) while a defect with other causal features keeps its own label.
+    """
+    fam, feats, sym, cur = _attribute(case, out)
+    return _canonical(fam, feats, sym, cur)
+
+
+def _canonical(fam, feats, sym, cur):
+    F = set(feats)
+    exc = "@" in sym
+    symclass = "raises" if exc else sym
+    classes = set()
+    for f in feats:
+        if f.endswith("-column") and f != "multi-column":
+            classes |= set(f[: -len("-column")].split("+"))
+    cols = set(_used_columns(cur))
+    # R1: the NaN chunk result of an EMPTY partition wins under skipna=False
+    if fam in ("min/max", "var", "std", "sem") and {"skipna=False", "empty-partition"} <= F and sym == "spurious-NA" \
+            and not classes:
+        return "%s:skipna=False&empty-partition:spurious-NA" % ("var" if fam != "min/max" else fam)
+    # R2: chunk rows of mixed column kinds (or bool/str/datetime next to the NaN of an empty partition) are object
+    # dtype; min/max(skipna=False) over object columns loses NaN / picks a wrong extreme
+    if fam == "min/max" and "skipna=False" in F and sym in ("lost-NA", "values") and "nullable" not in classes \
+            and cols & set("ebtk"):
+        return "min/max:skipna=False&object-chunk-rows:wrong-value"
+    # R5: an empty / all-NA partition's NaN chunk result changes the dtype or cannot be compared with str/datetime
+    if fam == "min/max" and sym == "dtype" and classes <= {"nullable"} and F & {"empty-partition", "all-NA-partition"}:
+        return "min/max:empty-or-all-NA-partition:dtype"
+    if fam == "min/max" and exc and classes and classes <= {"str", "datetime"} and "empty-partition" in F:
+        return "min/max:non-numeric-column&empty-partition:raises"
+    # R9: numeric_only=True leaves no column
+    if fam in ("mode", "idxmin/idxmax") and "numeric_only=True" in F and exc and cols and cols <= set("btk"):
+        return "%s:numeric_only=True&no-numeric-column:raises" % fam
+    # dtype-class mechanisms (nullable / datetime / str / categorical columns): one label per op family and symptom
+    # class; every axis=1 reduction is the same map_partitions(M.<op>, axis=1) with meta inferred on meta_nonempty
+    if classes:
+        f2 = "rowwise" if "axis=1" in F else fam
+        if f2 in ("std", "sem") and "nullable" in classes:
+            f2 = "var"
+        return "%s:%s-column:%s" % (f2, "+".join(sorted(classes)), symclass)
+    return "%s:%s:%s" % (fam, "&".join(feats) or "any", sym)
 
 
 def _min_cols(cur, s):
@@ -846,7 +832,7 @@ def _attribute(case, out):
     op = case["op"]
     fam = FAMILY.get(op, op)
     if op == "value_counts" and s == "order":
-        return "value_counts:sort-omitted:order"     # static predicate: the default call; data decides whether it shows
+        return ("value_counts", ["sort-omitted"], "order", case)   # static predicate: the default call
     feats = []
     cur = case
     multi = op in ("cov", "corr") or case["kw"].get("axis") == 1
@@ -955,7 +941,7 @@ def _attribute(case, out):
                 feats.append("all-NA-partition")        # gone when every all-NA partition is merged into a neighbour
             else:
                 feats.append("multi-partition")
-    return "%s:%s:%s" % (fam, "&".join(feats) or "any", s)
+    return (fam, feats, s, cur)
 
 
 def run_case(case, ctx):
